@@ -235,3 +235,16 @@ def loop_source(body, head_call):
         l = nxt
     ov = Origin(body, stop_at_vars=True)
     return render(ov.of_local(l))
+
+
+def finite_closure(prog, pred):
+    """The closure of an `iter().any(closure)` predicate is `|v| !v.is_finite()` (returns the negation of is_finite)."""
+    m = re.search(r'closure:([\w:<> ]*?\{closure#\d+\})', pred)
+    if not m:
+        return False
+    for b in prog.bodies.values():
+        if b.kind == 'Closure' and b.id.endswith(m.group(1)):
+            r = render(Origin(b).of_local(0))
+            if re.match(r'^Not\(.*is_finite\(.*\)\)$', r):
+                return True
+    return False
